@@ -362,6 +362,30 @@ pub fn run(cx: &mut Ctx) {
         }
     }
 
+    // every code byte through the DECODER (Packet::from_bytes -> Header::from_raw): the decoded code
+    // must name the byte it was decoded from, print as c.dd of that byte, and be re-encoded as that byte
+    for b in 0..=255u8 {
+        let line = format!("TBL deccode {}", b);
+        let r = guarded(|| {
+            Packet::from_bytes(&[0x40, b, 0x12, 0x34]).ok().map(|p| {
+                let back = p.to_bytes().ok().map(|v| v[1]);
+                (u8::from(p.header.code), p.header.get_code(), back, p.header.code == MessageClass::from(b))
+            })
+        });
+        match r {
+            Some(Some((n, txt, back, same))) => {
+                cx.case(&line, &format!("{} {} {}", n, txt, back.map(|x| x.to_string()).unwrap_or("err".into())));
+                if n != b || back != Some(b) || !same || txt != format!("{}.{:02}", b >> 5, b & 0x1f) {
+                    cx.oracle_fail("C05", &line, &format!("code byte {} decodes to a code whose number is {}, text {}, re-encoded {:?}, equal to MessageClass::from: {}", b, n, txt, back, same));
+                }
+            }
+            _ => {
+                cx.case(&line, "fail");
+                cx.oracle_fail("C05", &line, "a 4-byte message with this code byte is not decoded");
+            }
+        }
+    }
+
     // constants
     cx.case("TBL const maxsize", &Packet::MAX_SIZE.to_string());
     let d = Header::new();
